@@ -330,6 +330,11 @@ for (n, ks, bs, r, comp, flt, ns, tier) in ((1, (1,), 1, 1, 0, 0, 0, "quick"), (
         bounds="%d entries, key lengths %s (symbolic bytes, increasing), 1-byte values, block_size %d, restart interval %d, compression %s, filter policy %s, comparator %s" % (n, ks, bs, r, "snappy" if comp else "none", "abstract" if flt else "none", "bytewise without key shortening" if ns else "bytewise"))
 
 
+# h: the table reader uses a filter block only if its metaindex key is exactly filter.<policy name>, and reads it
+# checksum-verified under paranoid_checks (real ldb_table_open / read_meta / read_filter)
+from obl.c11_parts import who_verifies_obls
+OBLIGATIONS += who_verifies_obls("h")
+
 META = {
     "level": "model_checking",
     "level_text": ("Bounded model checking (CBMC 6.11) of lcdb's own table-format code, one component per query: "
